@@ -104,6 +104,7 @@ pub fn part_b(check: &Check, args: &Args) {
         let mut net: Net<B> = Net::new(rng.next_u64(), rng.chance(1, 4));
         let idle_cfg = |c: libp2p_swarm::Config| c.with_idle_connection_timeout(Duration::from_secs(3600));
         let hour = Duration::from_secs(3600);
+        let srv_period = *rng.pick(&[Duration::ZERO, Duration::from_millis(1), Duration::from_secs(90)]);
         net.add_node(
             vnet::keypair(rng.next_u64()),
             |k, _| {
@@ -119,6 +120,8 @@ pub fn part_b(check: &Check, args: &Args) {
                         throttle_clients_global_max: g_max,
                         throttle_clients_peer_max: p_max,
                         throttle_clients_period: hour,
+                        // the client-side throttle period is unrelated to how long the server remembers its clients
+                        throttle_server_period: srv_period,
                         ..Default::default()
                     },
                 ))
